@@ -386,7 +386,8 @@ CHECK = {
             "same special points and random in (-2pi,2pi), pitch random / at +-(pi/2-1e-3) / near it; random proper rotations with "
             "|R20| <= 1-1e-6 (30% within 1e-1..1.6e-3 rad of gimbal lock); quaternions of norm 1e-3..1e3 (15% with a zero component); "
             "points of norm 1e-6..1e6 incl. on the axes; float and double. Non-trivial = distinct case with a finite result.",
-    "trusted": ["translator translate/srcfuns.py (clang AST of between0And2Pi, betweenMinusPiAndPi, rotation2DToEulerAngle, rotation3DToEulerAngles at double -> Gallina)", "hand-written model coq/AnglesModel.v tied by differential execution (this run)",
+    "trusted": ["translator translate/eigensym.py + tr_C10_eigensym.py: clang JSON AST -> entry-wise symbolic values; its reading of the Eigen operations it accepts (coefficient access, Zero/Identity/Unit*, comma-initialiser block placement, * + - unary -, transpose, col/row/block/head, cross; AngleAxis->Quaternion, quaternion product, normalized, toRotationMatrix transcribed from Eigen 3.4); anything else is refused (fail closed)",
+                "translator translate/srcfuns.py (clang AST of between0And2Pi, betweenMinusPiAndPi, rotation2DToEulerAngle, rotation3DToEulerAngles at double -> Gallina)", "hand-written model coq/AnglesModel.v tied by differential execution (this run)",
                 "rounded dictionary B64Ops of coq/GridMapFloat.v (Flocq FLT(-1074,53), nearest-even) as the meaning of double arithmetic in the *_binary64 theorems; it is not the dictionary executed by the correspondence run (ocaml/numf.ml is)",
                 "extraction (ExtrOcamlBasic), ocaml/numf.ml (f32 = binary64 libm result rounded to binary32), ocaml/drv_C10.ml",
                 "harness/C10.cpp, python/mpmath oracle in checks/C10.py",
